@@ -343,7 +343,7 @@ def check_logprob_columns(pb, opts, out, row_tags, ll_lib):
 
 
 # ---------------------------------------------------------------- one monitored rejection_sample call
-def one_session(ctx, i, rng, return_logprobs=False, force=None, problem_kw=None, exc_classifier=None):
+def one_session(ctx, i, rng, return_logprobs=False, force=None, problem_kw=None, exc_classifier=None, inject=None):
     from thejoker import TheJoker
     pb = make_problem(rng, **(problem_kw or {}))
     N = pb.N
@@ -360,6 +360,8 @@ def one_session(ctx, i, rng, return_logprobs=False, force=None, problem_kw=None,
             # every batch re-opens the HDF5 file: keep the batch count moderate for big libraries
             opts["n_batches"] = int(rng.choice([1, 2, 3, 7, max(1, N - 1), N, N + 5] if N <= 200 else [1, 2, 3, 7, 16]))
     inj_kind = str(rng.choice(["none", "none", "neg-inf", "flat", "ties"]))
+    if inject is not None:
+        inj_kind = inject
     if N == 1 and inj_kind == "neg-inf":
         inj_kind = "none"
     inj = make_injection(rng, pb, inj_kind)
